@@ -418,7 +418,7 @@ class ProtobufReader(Converter):
                 problem.add_condition(TimePointInterval(GlobalEndTiming()), goal)
             else:
                 timing = self.convert(g.timing)
-                problem.add_condition(self.convert(timing), goal)
+                problem.add_condition(timing, goal)
 
         for sc in msg.scheduling_extension.scoped_constraints:
             c = self.convert(sc.constraint, problem)
